@@ -124,6 +124,41 @@ Proof.
 Qed.
 End Fold.
 
+Lemma Forall2_nth_error_l {A B} (P : A -> B -> Prop) l1 : forall l2 i a,
+  Forall2 P l1 l2 -> nth_error l1 i = Some a -> exists b, nth_error l2 i = Some b /\ P a b.
+Proof.
+  induction l1 as [|x t IH]; intros l2 i a HF Hi; [destruct i; discriminate|].
+  inversion HF as [|? y ? l2' Hxy Ht]; subst. destruct i as [|i]; cbn [nth_error] in *.
+  - inversion Hi; subst. eauto.
+  - eapply IH; eauto.
+Qed.
+
+(* the hypotheses about U1 are met by the labels the first stage really delivers: the combination of the leading pairs *)
+Lemma first_stage_labels rows :
+  let U1 := snd (spec_combine (map (firstn 2) rows)) in
+  (forall r, In r rows -> is_null_row (firstn 2 r) = false -> In (firstn 2 r) U1) /\ (forall u, In u U1 -> is_null_row u = false).
+Proof.
+  cbv zeta. unfold spec_combine.
+  pose proof (spec_invariant (map (firstn 2) rows) [] [] [] (Forall2_nil _) (NoDup_nil _) (fun u (H : In u []) => match H with end)) as [HF [_ HI]].
+  cbn [app] in HF, HI. split.
+  - intros r Hr Hn.
+    assert (Hin : In (firstn 2 r) (map (firstn 2) rows)) by (apply in_map; exact Hr).
+    destruct (In_nth_error _ _ Hin) as [i Hi].
+    destruct (Forall2_nth_error_l _ _ _ _ _ HF Hi) as [c [_ Hc]]. unfold code_ok in Hc.
+    destruct Hc as [[Hnull _]|[_ [_ Hnth]]].
+    + apply is_null_row_spec in Hnull. congruence.
+    + eapply nth_error_In; eauto.
+  - intros u Hu. destruct (HI u Hu) as [_ Hnn]. destruct (is_null_row u) eqn:E; [|reflexivity].
+    apply is_null_row_spec in E. contradiction.
+Qed.
+
+Corollary folding_with_the_first_stage rows :
+  let U1 := snd (spec_combine (map (firstn 2) rows)) in
+  spec_combine (map (fold_row U1) rows) = (fst (spec_combine rows), map (fold_row U1) (snd (spec_combine rows))).
+Proof.
+  cbv zeta. destruct (first_stage_labels rows) as [H1 H2]. exact (fold_leading_same_codes rows _ H1 H2).
+Qed.
+
 (* non-vacuity: three keys, first-stage labels of the pairs in order of appearance *)
 Example fold_example :
   let rows := [[1; 0; 2]; [0; 0; 1]; [1; 0; 2]; [-1; 0; 1]; [0; 0; 0]] in
